@@ -373,6 +373,16 @@ def hide_undoc_in_a():
                     bad.append(f"type/child.html: the heading reads {head!r}, the source says `type, extends(base_t) :: child`")
                 b2, n = check_b_links(os.path.join(pb, "doc"), os.path.join(pa, "doc"), {"amod": "module/amod.html"}, set())
                 bad += b2
+                modpage = open(os.path.join(pb, "doc", "module", "bmod.html"), encoding="utf-8").read()
+                if re.search(r"<a [^>]*>\s*base_t\s*</a>", modpage):
+                    bad.append("module/bmod.html: the reference [[base_t]] to an entity of A that has no page there is rendered as a link " + re.search(r"<a [^>]*>\s*base_t\s*</a>", modpage).group()[:80])
+        # B itself documented with hide_undoc while it extends a type of A that has bindings and components
+        with site.site(EXT_A, META_A, sandbox=sb, proj="A3") as (pa, sa):
+            if not sa.startswith("ok"):
+                return bad + [f"building A3 failed: {sa}"]
+            with site.site(EXT_B, META_B.replace("../A/doc", "../A3/doc") + "hide_undoc: true\n", sandbox=sb, proj="B3") as (pb, sbst):
+                if not sbst.startswith("ok"):
+                    bad.append(f"building B3 with hide_undoc against A3 (B3 extends a type of A3 that has bindings) failed: {sbst[:300]}")
         return bad
     finally:
         shutil.rmtree(sb, ignore_errors=True)
@@ -380,7 +390,7 @@ def hide_undoc_in_a():
 
 UNDOC_A = {"src/a.f90": "module amod\n  !! A's module\n  implicit none\n  type :: base_t\n    integer :: n\n  contains\n    procedure :: show\n  end type base_t\ncontains\n  subroutine show(self)\n    class(base_t) :: self\n"
                         "  end subroutine show\nend module amod\n"}
-UNDOC_B = {"src/b.f90": "module bmod\n  !! B, see [[amod]]\n  use amod\n  implicit none\n  type, extends(base_t) :: child\n    !! child doc\n  end type child\n  type(base_t) :: v\n    !! v doc\nend module bmod\n"}
+UNDOC_B = {"src/b.f90": "module bmod\n  !! B, see [[amod]] and [[base_t]] and [[amod:base_t]]\n  use amod\n  implicit none\n  type, extends(base_t) :: child\n    !! child doc\n  end type child\n  type(base_t) :: v\n    !! v doc\nend module bmod\n"}
 
 
 def search(parts=("end_to_end", "broken", "absolute", "remote")):
